@@ -1474,3 +1474,310 @@ func attrFilterKeepsOptOuts(c *Ctx, rule string) {
 	}
 	c.AtLeast(rule, "filters built in catFileBatchTreeForPointers", n, 1)
 }
+
+// transferRecvChecked (C14, C06): the queue closes its watcher channels when it is done; a receive then yields a
+// nil *Transfer. Every receive of a *tq.Transfer in package commands is of the two-value form (or a select with
+// the ok flag), and the received value is used only where the flag was true. A nil transfer announced as an
+// available blob makes filter-process panic in the middle of a response.
+func transferRecvChecked(c *Ctx, rule string) {
+	p := c.P
+	n := 0
+	isTransferChan := func(t types.Type) bool {
+		ch, ok := t.Underlying().(*types.Chan)
+		return ok && short(ch.Elem().String()) == "*tq.Transfer"
+	}
+	for _, fn := range p.RepoFuncs(func(path string) bool { return strings.HasSuffix(path, "/commands") }) {
+		for _, b := range fn.Blocks {
+			for _, in := range b.Instrs {
+				var val, okv ssa.Value
+				var pos ssa.Instruction
+				switch x := in.(type) {
+				case *ssa.UnOp:
+					if x.Op != token.ARROW || !isTransferChan(x.X.Type()) {
+						continue
+					}
+					n++
+					pos = x
+					if !x.CommaOk {
+						c.Bad(rule, "transfer-receive-checked:"+FnName(fn), p.InstrPos(x), "a *tq.Transfer is received without the ok flag: after the queue closed the channel this yields nil, which is then used as a transfer (filter-process announces a nil blob and panics)")
+						continue
+					}
+					for _, r := range Referrers(x) {
+						if ex, ok := r.(*ssa.Extract); ok {
+							if ex.Index == 0 {
+								val = ex
+							} else {
+								okv = ex
+							}
+						}
+					}
+				case *ssa.Select:
+					recvIdx := 0
+					for _, stt := range x.States {
+						if stt.Dir != types.RecvOnly {
+							continue
+						}
+						if isTransferChan(stt.Chan.Type()) {
+							n++
+							pos = x
+							for _, r := range Referrers(x) {
+								if ex, ok := r.(*ssa.Extract); ok {
+									if ex.Index == 1 {
+										okv = ex
+									} else if ex.Index == 2+recvIdx {
+										val = ex
+									}
+								}
+							}
+						}
+						recvIdx++
+					}
+				default:
+					continue
+				}
+				if pos == nil || val == nil {
+					continue
+				}
+				pass := PassEdges(fn, func(cond ssa.Value) (bool, bool) {
+					if okv != nil && cond == okv {
+						return true, true
+					}
+					return false, false
+				})
+				good, where := true, ""
+				for _, u := range Referrers(val) {
+					if _, isDbg := u.(*ssa.DebugRef); isDbg {
+						continue
+					}
+					if g, w := Guarded(fn.Blocks[0], u, pass, noReturnCommands); !g || !nonVacuous(pass) {
+						good, where = false, p.InstrPos(u)+" via "+w
+					}
+				}
+				c.Check(good, rule, "transfer-receive-checked:"+FnName(fn)+"@"+itoa(n), p.InstrPos(pos), "the received transfer is used only where the ok flag was true",
+					"a received *tq.Transfer is used without its ok flag having been tested ("+where+"): after the queue closed the channel it is nil")
+			}
+		}
+	}
+	c.AtLeast(rule, "receives of *tq.Transfer in package commands", n, 3)
+}
+
+// requestHeaderVerbatim (C14): Git names the blob of a filter request in a `pathname=` header and expects the
+// very same bytes back when delayed blobs are listed. readRequest stores header keys and values exactly as split
+// at the first '=' — no trimming, cleaning or case change.
+func requestHeaderVerbatim(c *Ctx, rule string) {
+	p := c.P
+	fn := p.Fn("git", "(*FilterProcessScanner).readRequest")
+	if fn == nil {
+		c.Missing(rule, "(*git.FilterProcessScanner).readRequest", "not found")
+		return
+	}
+	n := 0
+	for _, b := range fn.Blocks {
+		for _, in := range b.Instrs {
+			mu, ok := in.(*ssa.MapUpdate)
+			if !ok || short(mu.Map.Type().String()) != "map[string]string" {
+				continue
+			}
+			n++
+			verbatim := func(v ssa.Value) (bool, string) {
+				switch x := v.(type) {
+				case *ssa.Call:
+					return false, CalleeName(x.Common())
+				case *ssa.Extract:
+					if cc, ok := x.Tuple.(*ssa.Call); ok && CalleeName(cc.Common()) == "strings.Cut" {
+						return true, ""
+					}
+					return false, "a call result"
+				case *ssa.UnOp:
+					if ia, ok := x.X.(*ssa.IndexAddr); ok {
+						if cc, _, ok := CallResult(ia.X); ok && nameIn(CalleeName(cc.Common()), []string{"strings.SplitN", "strings.Split"}) {
+							if CalleeName(cc.Common()) == "strings.SplitN" {
+								if k, ok := ConstInt(cc.Call.Args[2]); !ok || k != 2 {
+									return false, "a split that is not bounded to two parts"
+								}
+							} else {
+								return false, "an unbounded split (values containing '=' are cut)"
+							}
+							return true, ""
+						}
+					}
+				case *ssa.BinOp:
+					return false, "a computed string"
+				}
+				return true, ""
+			}
+			okK, whyK := verbatim(mu.Key)
+			okV, whyV := verbatim(mu.Value)
+			why := whyK
+			if okK {
+				why = whyV
+			}
+			c.Check(okK && okV, rule, "request-header:stored-verbatim", p.InstrPos(mu), "header key and value are the two parts of the line split at the first '='",
+				"a filter request header is stored after passing through "+why+": a pathname with leading or trailing white space is altered, so the path announced for a delayed blob is one Git never asked for")
+		}
+	}
+	c.AtLeast(rule, "header stores in readRequest", n, 1)
+}
+
+// concatPicksEarliest (C15): when no object is ready the batch collector sleeps for the wait Concat reports; that
+// wait is the *smallest* over the deferred objects, so an object on a short back-off is not held back by another
+// object's long Retry-After. In the loop of Concat the running value (a loop-carried time.Duration or time.Time)
+// is replaced only where the candidate compared smaller/earlier than it.
+func concatPicksEarliest(c *Ctx, rule string) {
+	p := c.P
+	fn := p.Fn("tq", "(batch).Concat")
+	if fn == nil {
+		c.Missing(rule, "(tq.batch).Concat", "not found")
+		return
+	}
+	isTimeish := func(t types.Type) bool {
+		s := t.String()
+		return s == "time.Duration" || s == "time.Time"
+	}
+	judged := 0
+	for _, l := range Loops(fn) {
+		for _, in := range l.Header.Instrs {
+			acc, ok := in.(*ssa.Phi)
+			if !ok {
+				break
+			}
+			if !isTimeish(acc.Type()) {
+				continue
+			}
+			// update sites: (value, predecessor block) pairs that feed the accumulator with something else
+			type upd struct {
+				v ssa.Value
+				p *ssa.BasicBlock
+			}
+			var upds []upd
+			seen := map[*ssa.Phi]bool{}
+			var expand func(ph *ssa.Phi)
+			expand = func(ph *ssa.Phi) {
+				if seen[ph] {
+					return
+				}
+				seen[ph] = true
+				for i, e := range ph.Edges {
+					pred := ph.Block().Preds[i]
+					if !l.Region[pred] {
+						continue
+					}
+					if e == ssa.Value(acc) {
+						continue
+					}
+					if m, ok := e.(*ssa.Phi); ok && l.Region[m.Block()] && m.Block() != l.Header {
+						expand(m)
+						continue
+					}
+					upds = append(upds, upd{e, pred})
+				}
+			}
+			expand(acc)
+			for b := range l.Region {
+				ifi, ok := lastInstr(b).(*ssa.If)
+				if !ok {
+					continue
+				}
+				cond, flip := stripNot(ifi.Cond)
+				smallerOnTrue, isCmp := false, false
+				if op, x, y, ok := BinCmp(cond); ok && (x == ssa.Value(acc) || y == ssa.Value(acc)) {
+					accLeft := x == ssa.Value(acc)
+					switch op {
+					case token.LSS, token.LEQ: // new < acc  |  acc < new
+						smallerOnTrue, isCmp = !accLeft, true
+					case token.GTR, token.GEQ:
+						smallerOnTrue, isCmp = accLeft, true
+					}
+				} else if cc, ok := cond.(*ssa.Call); ok {
+					a := cc.Call.Args
+					if len(a) == 2 && (a[0] == ssa.Value(acc) || a[1] == ssa.Value(acc)) {
+						accRecv := a[0] == ssa.Value(acc)
+						switch CalleeName(cc.Common()) {
+						case "(time.Time).Before": // new.Before(acc) | acc.Before(new)
+							smallerOnTrue, isCmp = !accRecv, true
+						case "(time.Time).After":
+							smallerOnTrue, isCmp = accRecv, true
+						}
+					}
+				}
+				if !isCmp {
+					continue
+				}
+				if flip {
+					smallerOnTrue = !smallerOnTrue
+				}
+				for _, u := range upds {
+					onTrue := b.Succs[0] != l.Header && b.Succs[0].Dominates(u.p)
+					onFalse := b.Succs[1] != l.Header && b.Succs[1].Dominates(u.p)
+					if u.p == b {
+						// the If block itself is the predecessor: which edge carries the update?
+						continue
+					}
+					if !onTrue && !onFalse {
+						continue
+					}
+					judged++
+					c.Check(onTrue == smallerOnTrue, rule, "Concat:wait-is-the-smallest#"+itoa(judged), p.InstrPos(ifi), "the running wait is replaced only by a smaller/earlier candidate",
+						"Concat keeps the larger/later of the deferred objects' ready times as the time to sleep: every deferred object waits for the longest outstanding delay (e.g. another object's Retry-After), beyond lfs.transfer.maxretrydelay")
+				}
+			}
+		}
+	}
+	c.AtLeast(rule, "min-selections judged in Concat", judged, 1)
+}
+
+// retryLaterNotWrapped (C15): the queue tells "retry after the time the server indicated" from "retry on
+// back-off" by the outermost error (IsRetriableLaterError looks at the error itself, while IsRetriableError is
+// asked first and is satisfied by a wrapper). A retriable-later error must therefore reach the queue as it is:
+// it is never passed to another constructor or wrapper of package errors.
+func retryLaterNotWrapped(c *Ctx, rule string) {
+	p := c.P
+	n := 0
+	for _, fn := range p.RepoFuncs(productPkg) {
+		for _, ci := range CallsIn(fn, "errors.NewRetriableLaterError") {
+			call, ok := ci.(*ssa.Call)
+			if !ok {
+				continue
+			}
+			n++
+			good, where := true, ""
+			seen := map[ssa.Value]bool{}
+			var follow func(v ssa.Value, d int)
+			follow = func(v ssa.Value, d int) {
+				if d > 4 || seen[v] {
+					return
+				}
+				seen[v] = true
+				for _, r := range Referrers(v) {
+					switch x := r.(type) {
+					case *ssa.Phi:
+						follow(x, d+1)
+					case *ssa.Store:
+						if al, ok := x.Addr.(*ssa.Alloc); ok && x.Val == v {
+							for _, ld := range Referrers(al) {
+								if u, ok := ld.(*ssa.UnOp); ok {
+									follow(u, d+1)
+								}
+							}
+						}
+					case *ssa.MakeInterface:
+						follow(x, d+1)
+					case ssa.CallInstruction:
+						cn := CalleeName(x.Common())
+						if strings.HasPrefix(cn, "errors.New") || strings.HasPrefix(cn, "errors.Wrap") {
+							for _, a := range x.Common().Args {
+								if a == v {
+									good, where = false, cn+" at "+p.InstrPos(x)
+								}
+							}
+						}
+					}
+				}
+			}
+			follow(call, 0)
+			c.Check(good, rule, "retry-later-error-not-wrapped:"+FnName(fn), p.InstrPos(call), "the retriable-later error is handed on as it is",
+				"a retriable-later error is wrapped by "+where+": the queue sees an ordinary retriable error first and repeats the request on back-off, long before the time the server's Retry-After indicated")
+		}
+	}
+	c.AtLeast(rule, "constructions of retriable-later errors", n, 3)
+}
